@@ -188,9 +188,13 @@ def runCase (line : String) : String :=
   | [payload, trace] =>
     match payload.splitOn " " with
     | ["I", g, per, _seed, variant] =>
-      -- the id generator under contention: every id distinct and > 0 (`ids_distinct`)
+      -- the id generator under contention and across pool life-cycles: every id ever handed out
+      -- is distinct and > 0 (`ids_distinct`, `id_counter_monotone`)
       let g := g.toNat!
-      s!"ids={g * per.toNat!} dup=0 zero=0 wk={if variant = "w" then g else 0} wdup=0\treplay=ok\tnt=1"
+      let v := variant.toList.headD 'p'
+      let phases := if v = 'r' || v = 'f' then (variant.drop 1).toString.toNat! + 1 else 1
+      let wk := if v = 'w' || v = 'r' || v = 'f' then g * phases else 0
+      s!"ids={g * per.toNat! * phases} dup=0 zero=0 wk={wk} wdup=0\treplay=ok\tnt=1"
     | [mode, threads, iters, _seed, roles] =>
       let threads := threads.toNat!
       let iters := iters.toNat!
